@@ -50,6 +50,14 @@ static size_t forge(uint8_t *out, int what, int64_t arg, const uint8_t ver[2])
 		out[1] = ver[0]; out[2] = ver[1]; out[3] = (uint8_t)(n >> 8); out[4] = (uint8_t)n;
 		rng_bytes(&r, out + 5, n);
 		return 5 + n;
+	case 6: { /* record whose header announces more than TLS_MAX_CIPHERTEXT_SIZE bytes, with that many bytes following */
+		static const size_t big[] = { 18433, 18438, 20000, 40000, 65535 };
+		n = big[(uint64_t)arg % 5];
+		out[0] = (arg & 8) ? TLS_record_handshake : TLS_record_application_data;
+		out[1] = ver[0]; out[2] = ver[1]; out[3] = (uint8_t)(n >> 8); out[4] = (uint8_t)n;
+		rng_bytes(&r, out + 5, 64);
+		memset(out + 5 + 64, 0x5a, n - 64);
+		return 5 + n; }
 	default: /* empty handshake record */
 		out[0] = TLS_record_handshake; out[1] = ver[0]; out[2] = ver[1]; out[3] = 0; out[4] = 0;
 		return 5;
@@ -58,7 +66,7 @@ static size_t forge(uint8_t *out, int what, int64_t arg, const uint8_t ver[2])
 
 static void inject_after(Conn *c, int dir, int idx)
 {
-	static uint8_t tmp[TLS_MAX_RECORD_SIZE + 64];
+	static uint8_t tmp[65536 + 64];
 	for (int i = 0; i < g_mp->nfaults; i++) {
 		const Fault *f = &g_mp->faults[i];
 		if (f->dir != dir || f->rec != idx) continue;
@@ -342,7 +350,7 @@ static void gen_fault_hs(Fault *f, Rng *g, const HonestOut *o)
 		break;
 	case F_INJECT:
 		if (rng_chance(g, 1, 8)) f->rec = -1;
-		f->a = rng_below(g, 6);
+		f->a = rng_below(g, 8);
 		f->b = (int64_t)(rng_u64(g) >> 40);
 		if (f->a == 0) f->b = (int64_t[]){ 0, 10, 20, 40, 47, 80 }[rng_below(g, 6)];
 		break;
